@@ -142,6 +142,50 @@ func clGetNodeProbe(c *Ctx) {
 		gn, isCall := strip(fi.RetVal(ret, 0)).(*ssa.Call)
 		c.Check(isCall && p.CallsAny(gn, getNode) && fi.guardedByValue(ret, sk.(ssa.Value), true), fn, ret, "node returned only when the seek found a live item", "GetNode returns the cursor position although no live item with that key was found (Delete then removes a different key)")
 	}
+	// absence is reported only by the search itself (no shortcut decides it)
+	for _, ret := range fi.Returns() {
+		if len(ret.Results) != 1 || !isNilConst(fi.RetVal(ret, 0)) {
+			continue
+		}
+		c.Check(fi.guardedByValue(ret, sk.(ssa.Value), false), fn, ret, "GetNode reports absence only when the seek did not find the key",
+			"a shortcut returns nil without searching (or ignoring the search): counters such as ItemsCount()/Writer.count do not see other writers' pending inserts, so a live item is reported absent and Delete fails on it")
+	}
+	// the probe is built from the caller's key
+	c.Check(ok && strip(pc.Call.Args[1]) == strip(fn.Params[1]), fn, sk, "lookup probe is built from the caller's key bytes", "the lookup searches for something else than the key it was given")
+	clKeyOpsAlwaysSearch(c)
+}
+
+// Every key operation is decided by a search of the store made with a probe
+// built from the caller's bytes on that very call.
+func clKeyOpsAlwaysSearch(c *Ctx) {
+	p := c.P
+	newItem := p.Func("nitro", "Nitro", "newItem")
+	type op struct {
+		fn     *ssa.Function
+		search []*ssa.Function
+		what   string
+	}
+	slSeek := p.Func("skiplist", "Iterator", "Seek")
+	ops := []op{
+		{p.Func("nitro", "Writer", "Put2"), []*ssa.Function{p.Func("skiplist", "Skiplist", "Insert2"), p.Func("skiplist", "Skiplist", "Insert3"), p.Func("skiplist", "Skiplist", "Insert")}, "Put2 always attempts the insert"},
+		{p.Func("nitro", "Writer", "Delete2"), []*ssa.Function{p.Func("nitro", "Writer", "GetNode")}, "Delete2 always looks the key up"},
+		{p.Func("nitro", "Writer", "GetNode"), []*ssa.Function{p.Func("skiplist", "Iterator", "SeekWithCmp")}, "GetNode always searches"},
+		{p.Func("nitro", "Iterator", "Seek"), []*ssa.Function{slSeek}, "Iterator.Seek always repositions the cursor"},
+	}
+	for _, o := range ops {
+		fi := p.Info(o.fn)
+		for _, ret := range fi.Returns() {
+			ok := fi.MustPrecede(ret, func(x ssa.Instruction) bool { return p.IsCall(x, o.search...) })
+			c.Check(ok, o.fn, ret, o.what+" before it returns", "some path returns without consulting the store: the result does not reflect the current set")
+		}
+	}
+	// snapshot iterator Seek: fresh probe from the caller's key
+	sf := p.Func("nitro", "Iterator", "Seek")
+	for _, s := range p.CallSites(sf, slSeek) {
+		pc, ok := strip(callOf(s).Args[1]).(*ssa.Call)
+		c.Check(ok && p.CallsAny(pc, newItem) && strip(pc.Call.Args[1]) == strip(sf.Params[1]), sf, s, "Iterator.Seek searches with a fresh probe built from the caller's key",
+			"the seek key is a reused or cached item: bytes (or the length) of an earlier, longer key remain in it and the cursor lands on a different key")
+	}
 }
 
 func isFalseConst(v ssa.Value) bool {
